@@ -10,23 +10,54 @@ open Kitoken Kitoken.Bpe Kitoken.Spec
 /-- Fresh scratch entries for the unit boundaries `starts` (all ranks still `MAXR`). -/
 def freshParts (starts : List Nat) : List RankedPart := starts.map fun s => { start := s, rank := MAXR }
 
+/- ORIGINAL STATEMENT (FALSE as written; kept for reference):
+
+   theorem linear_eq_spec (c : BpeCtx) (piece : Bytes) (pre : List RankedPart) (starts : List Nat)
+       (h : Boundaries piece.length starts) :
+       ∃ parts, mergeBpeParts c piece (pre ++ freshParts starts) pre.length = pre ++ parts ∧
+         segsOfStarts piece (parts.map (·.start)) = bpeSpec (rankOf c) (segsOfStarts piece starts)
+
+   Counterexample: `BpeCtx.rank : Bytes → Option Nat` may return a rank above `MAXR = u32::MAX` (impossible
+   for the Rust `TokenRank = u32`, but not excluded by the model's type). With
+   `c.rank = fun _ => some (MAXR + 1)`, `piece = [1, 2]`, `starts = [0, 1, 2]`, `pre = []`:
+   the code starts its minimum scan at `MAXR`, never selects a rank `≥ MAXR` and leaves `[[1], [2]]`, whereas
+   `bpeSpec` stops only on `r = MAXR` and so merges to `[[1, 2]]` (checked with `#eval`; machine-checked refutation:
+   `Kitoken.Proofs.Bpe.linear_eq_spec_unrestricted_false`).
+   Minimal repair: all ranks are `≤ MAXR` (hypothesis `hr`). Without `hr` the code still equals the
+   specification for the ranks clamped at `MAXR` (`Kitoken.Proofs.Bpe.linear_gen`). -/
+
 /-- Linear strategy: on a scratch buffer that already holds `pre` (entries of earlier pieces), merging the
     units of this piece leaves `pre` untouched and yields boundaries whose segments are exactly the
-    canonical BPE merge of the units — for every vocabulary/rank function, every piece and every unit
-    boundary list (bytes or characters, last unit carrying the end-of-word suffix). -/
-theorem linear_eq_spec (c : BpeCtx) (piece : Bytes) (pre : List RankedPart) (starts : List Nat)
+    canonical BPE merge of the units — for every vocabulary/rank function with ranks in the `u32` range,
+    every piece and every unit boundary list (bytes or characters, last unit carrying the end-of-word suffix). -/
+theorem linear_eq_spec_partial (c : BpeCtx) (piece : Bytes) (pre : List RankedPart) (starts : List Nat)
+    (hr : ∀ b, rankOf c b ≤ MAXR)
     (h : Boundaries piece.length starts) :
     ∃ parts, mergeBpeParts c piece (pre ++ freshParts starts) pre.length = pre ++ parts ∧
       segsOfStarts piece (parts.map (·.start)) = bpeSpec (rankOf c) (segsOfStarts piece starts) :=
-  Kitoken.Proofs.Bpe.linear_eq_spec c piece pre starts h
+  Kitoken.Proofs.Bpe.linear_eq_spec_partial c piece pre starts hr h
 
-/-- Heap strategy: the surviving nodes, in text order, are the canonical BPE merge of the units. -/
-theorem heap_eq_spec (c : BpeCtx) (piece : Bytes) (us : List (Nat × Nat)) (h : UnitsWF piece.length us) :
+/- ORIGINAL STATEMENT (FALSE as written, same reason as `linear_eq_spec`; kept for reference):
+
+   theorem heap_eq_spec (c : BpeCtx) (piece : Bytes) (us : List (Nat × Nat)) (h : UnitsWF piece.length us) :
+       (heapLoop c piece (heapInit c piece us)).map (fun n => slice piece n.start (n.start + n.width)) =
+         bpeSpec (rankOf c) (segsOfStarts piece (unitStarts piece.length us))
+
+   Counterexample: `c.rank = fun _ => some (MAXR + 1)`, `piece = [1, 2]`, `us = [(0, 1), (1, 1)]`:
+   the heap minimum is the last node (rank `MAXR`), the loop stops with `[[1], [2]]`; `bpeSpec` gives `[[1, 2]]`
+   (checked with `#eval`; refutation: `Kitoken.Proofs.Bpe.heap_eq_spec_unrestricted_false`).
+   Minimal repair: hypothesis `hr`. Without it: `Kitoken.Proofs.Bpe.heap_gen`. -/
+
+/-- Heap strategy: the surviving nodes, in text order, are the canonical BPE merge of the units
+    (ranks in the `u32` range). -/
+theorem heap_eq_spec_partial (c : BpeCtx) (piece : Bytes) (us : List (Nat × Nat))
+    (hr : ∀ b, rankOf c b ≤ MAXR) (h : UnitsWF piece.length us) :
     (heapLoop c piece (heapInit c piece us)).map (fun n => slice piece n.start (n.start + n.width)) =
       bpeSpec (rankOf c) (segsOfStarts piece (unitStarts piece.length us)) :=
-  Kitoken.Proofs.Bpe.heap_eq_spec c piece us h
+  Kitoken.Proofs.Bpe.heap_eq_spec_partial c piece us hr h
 
-/-- The result does not depend on which strategy the piece length selects. -/
+/-- The result does not depend on which strategy the piece length selects (no assumption on the ranks:
+    both strategies ignore ranks `≥ MAXR` in the same way). -/
 theorem strategy_independent (c : BpeCtx) (piece : Bytes) (us : List (Nat × Nat))
     (h : UnitsWF piece.length us) (pre : List RankedPart) :
     ∃ parts, mergeBpeParts c piece (pre ++ freshParts (unitStarts piece.length us)) pre.length = pre ++ parts ∧
